@@ -2,11 +2,133 @@ import NmVerif.Arr
 import NmVerif.Index.Transpose
 import NmVerif.Index.Reshape
 import NmVerif.Index.Flip
+import NmVerif.Lemmas.Rearrange
 /-
   C03 — Rearranging views (reshape, transpose, moveaxis, ...) equal NumPy's result.
   Only property statements (+ non-vacuity examples, counterexamples of known findings) live here.
 -/
 namespace NmVerif.Props.C03
 open NmVerif
+
+/-- **transpose = NumPy** for every rank and every permutation (axes possibly written with negative indices):
+    `p` is NumPy's normalised axes tuple; the result has `shape[k] = src[p[k]]` and reads, at destination index `d`,
+    the source index `i` with `i[p[k]] = d[k]` (the defining equations of `np.transpose`). -/
+theorem transpose_eq_spec (src : Shape) (ax : List Int) (p : List Nat)
+    (hn : normalizeAxes src.length ax = some p) (hperm : p.Perm (List.range src.length)) :
+    ∃ v, transposeView src (some ax) = some v ∧ v.src = src ∧ v.dst.length = src.length ∧
+      (∀ (k a : Nat), p[k]? = some a → v.dst[k]? = src[a]?) ∧
+      (∀ d : Idx, d.length = src.length → ∃ i, v.map d = some i ∧ i.length = src.length ∧
+          ∀ (k a : Nat), p[k]? = some a → i[a]? = d[k]?) := by
+  obtain ⟨hlen, hnd, hlt, _⟩ := perm_range_facts p _ hperm
+  obtain ⟨dst, hdst, hv⟩ := transposeView_some src ax p hn hlen
+  refine ⟨_, hv, rfl, ?_, ?_, ?_⟩
+  · simp [mapM_some_length _ _ _ hdst, hlen]
+  · intro k a hk
+    exact ((mapM_some_get _ _ _ hdst k a hk).1).symm
+  · intro d hd
+    refine ⟨scatter d p, rfl, by simp [scatter_length, hd], ?_⟩
+    intro k a hk
+    exact scatter_get d p hnd (by simpa [hd] using hlt) (by omega) k a hk
+
+/-- default transpose (`axes = None`) = NumPy's `.T`: axes reversed -/
+theorem transpose_default_eq_spec (src : Shape) :
+    ∃ v, transposeView src none = some v ∧ v.src = src ∧ v.dst.length = src.length ∧
+      (∀ k : Nat, k < src.length → v.dst[k]? = src[src.length - 1 - k]?) ∧
+      (∀ d : Idx, d.length = src.length → ∃ i, v.map d = some i ∧ i.length = src.length ∧
+          ∀ k : Nat, k < src.length → i[src.length - 1 - k]? = d[k]?) := by
+  refine ⟨_, rfl, rfl, by simp, ?_, ?_⟩
+  · intro k hk
+    simp [List.getElem?_reverse hk]
+  · intro d hd
+    refine ⟨d.reverse, rfl, by simp [hd], ?_⟩
+    intro k hk
+    rw [List.getElem?_reverse (by omega), hd]
+    congr 1; omega
+
+theorem transpose_inBounds (src : Shape) (ax : List Int) (p : List Nat) (v : IxView)
+    (hn : normalizeAxes src.length ax = some p) (hperm : p.Perm (List.range src.length))
+    (hv : transposeView src (some ax) = some v) : v.InBounds := by
+  obtain ⟨hlen, hnd, hlt, _⟩ := perm_range_facts p _ hperm
+  obtain ⟨dst, hdst, hv'⟩ := transposeView_some src ax p hn hlen
+  rw [hv] at hv'; cases hv'
+  intro d hd i hi
+  simp only [Option.some.injEq] at hi
+  subst hi
+  have hdl : dst.length = src.length := by simp [mapM_some_length _ _ _ hdst, hlen]
+  have hdlen : d.length = src.length := by rw [← hdl]; exact hd.length_eq
+  refine transposed_inShape src dst d _ p hperm hdl (by simp [scatter_length, hdlen]) ?_ ?_ hd
+  · intro k a hk; exact ((mapM_some_get _ _ _ hdst k a hk).1).symm
+  · intro k a hk
+    exact scatter_get d p hnd (by simpa [hdlen] using hlt) (by omega) k a hk
+
+theorem transpose_default_inBounds (src : Shape) (v : IxView) (hv : transposeView src none = some v) :
+    v.InBounds := by
+  simp only [transposeView, Option.some.injEq] at hv
+  subst hv
+  intro d hd i hi
+  simp only [Option.some.injEq] at hi
+  subst hi
+  simpa using InShape_reverse hd
+
+/-- transposing with a permutation `p` and then with its inverse `q` restores the array:
+    the composed view has the source's shape and reads element `d` at `d`. -/
+theorem transpose_transpose_inv (src : Shape) (ax aq : List Int) (p q : List Nat)
+    (hn : normalizeAxes src.length ax = some p) (hq : normalizeAxes src.length aq = some q)
+    (hp : p.Perm (List.range src.length)) (hqp : q.Perm (List.range src.length))
+    (hinv : ∀ (k a : Nat), p[k]? = some a → q[a]? = some k) :
+    ∃ v w, transposeView src (some ax) = some v ∧ transposeView v.dst (some aq) = some w ∧
+      (w.comp v).src = src ∧ (w.comp v).dst = src ∧ ∀ d, InShape d src → (w.comp v).map d = some d := by
+  obtain ⟨hlen, hnd, hlt, hsurj⟩ := perm_range_facts p _ hp
+  obtain ⟨hqlen, hqnd, hqlt, hqsurj⟩ := perm_range_facts q _ hqp
+  obtain ⟨dst, hdst, hv⟩ := transposeView_some src ax p hn hlen
+  have hdl : dst.length = src.length := by simp [mapM_some_length _ _ _ hdst, hlen]
+  obtain ⟨dst2, hdst2, hw⟩ := transposeView_some dst aq q (by rw [hdl]; exact hq) (by omega)
+  refine ⟨_, _, hv, hw, rfl, ?_, ?_⟩
+  · -- shape restored
+    show dst2 = src
+    have hdl2 : dst2.length = src.length := by simp [mapM_some_length _ _ _ hdst2, hqlen]
+    apply List.ext_getElem?
+    intro k
+    by_cases hk : k < src.length
+    · obtain ⟨k0, hk0⟩ := hsurj k hk
+      have hqk : q[k]? = some k0 := hinv k0 k hk0
+      rw [← (mapM_some_get _ _ _ hdst2 k k0 hqk).1, ← (mapM_some_get _ _ _ hdst k0 k hk0).1]
+    · rw [List.getElem?_eq_none (by omega), List.getElem?_eq_none (by omega)]
+  · intro d hd
+    show (some (scatter d q)).bind (fun e => some (scatter e p)) = some d
+    simp only [Option.bind_some, Option.some.injEq]
+    exact scatter_scatter_inv d p q src.length hd.length_eq hp hqp hinv
+
+/-- … as a statement about arrays: `transpose(transpose(a, p), p⁻¹) ≈ a` (same shape, same elements) -/
+theorem transpose_transpose_inv_arr {α : Type} (a : Arr α) (fill : α) (ax aq : List Int) (p q : List Nat)
+    (hn : normalizeAxes a.shape.length ax = some p) (hq : normalizeAxes a.shape.length aq = some q)
+    (hp : p.Perm (List.range a.shape.length)) (hqp : q.Perm (List.range a.shape.length))
+    (hinv : ∀ (k a : Nat), p[k]? = some a → q[a]? = some k) :
+    ∃ v w, transposeView a.shape (some ax) = some v ∧ transposeView v.dst (some aq) = some w ∧
+      (w.apply (v.apply a fill) fill).Equiv a := by
+  obtain ⟨v, w, hv, hw, _, hdst, hmap⟩ := transpose_transpose_inv a.shape ax aq p q hn hq hp hqp hinv
+  refine ⟨v, w, hv, hw, hdst, ?_⟩
+  intro d hd
+  have hd' : InShape d a.shape := by
+    have : (w.apply (v.apply a fill) fill).shape = a.shape := hdst
+    rw [this] at hd; exact hd
+  have := hmap d hd'
+  simp only [IxView.comp] at this
+  simp only [IxView.apply]
+  cases hwd : w.map d with
+  | none => simp [hwd] at this
+  | some e =>
+    simp only [hwd, Option.bind_some] at this
+    simp [this]
+
+/-! non-vacuity (transpose): a rank-3 permutation written with a negative index, and its inverse -/
+example : normalizeAxes [2,3,4].length [-1,0,1] = some [2,0,1] ∧ [2,0,1].Perm (List.range 3) := by decide
+example : (transposeView [2,3,4] (some [-1,0,1])).map (fun v => (v.dst, v.map [3,1,2])) = some ([4,2,3], some [1,2,3]) := by decide
+example : ∀ (k a : Nat), [2,0,1][k]? = some a → [1,2,0][a]? = some k := by
+  intro k a; match k with
+  | 0 => simp; intro h; subst h; rfl
+  | 1 => simp; intro h; subst h; rfl
+  | 2 => simp; intro h; subst h; rfl
+  | k+3 => simp
 
 end NmVerif.Props.C03
